@@ -11,5 +11,5 @@ if [ -f engine/yast.cpp ] && { [ ! -f build/yast.so ] || [ engine/yast.cpp -nt b
   clang++ $CXXF -O1 -fPIC -shared engine/yast.cpp -o build/yast.so &
 fi
 wait
-test -x build/yir
+test -x build/yir && test -f build/yast.so && [ ! engine/yast.cpp -nt build/yast.so ]
 echo "engines built"
